@@ -60,6 +60,7 @@ type Node struct {
 	Rules []*Rule  // annotation rules in written order
 	Note  string   // annotation note text
 	Dash  bool     // rules followed by the note separator " -" and an EMPTY note
+	Split int      // > 0: the first Split rules (and the note) form one annotation, the rest a second one on the same value
 
 	// filled by the renderer
 	Pos    int // byte offset of the value (first byte of literal / opening bracket / '@')
